@@ -87,6 +87,9 @@ func runC13(c *Ctx) []Obligation {
 			"the global session cache is read by claim validation and dispatch, and cleared through ClearSessionCache"),
 	)
 	out = append(out, c.sessionCacheCleared(P)...)
+	out = append(out, c.whoMayCall(P, "node-record.deleters", "(x/nodes/keeper.Keeper).DeleteValidator",
+		[]string{kN + `(EditStakeValidator|LegacyForceValidatorUnstake|unstakeAllMatureValidators|IncrementJailedValidators|UpdateTendermintValidators)`},
+		"node records are deleted only by functions that clear the session cache (edit-stake, forced unstake, matured unstake) or that delete a record already force-unstaked by one of them (jailed-blocks sweep, validator-set update)"))
 	return out
 }
 
@@ -352,6 +355,7 @@ func (c *Ctx) sessionCacheCleared(P string) []Obligation {
 		{Prop: P, ID: "sessioncache.cleared.edit-node", Fn: fnEditStakeVal, Barrier: []string{clear}, Target: Success(), Why: "an edit-stake (chains may change) clears the session cache"},
 		{Prop: P, ID: "sessioncache.cleared.edit-app", Fn: fnEditStakeApp, Barrier: []string{clear}, Target: Success(), Why: "an application edit-stake clears the session cache"},
 		{Prop: P, ID: "sessioncache.cleared.force", Fn: fnForceUnstake, Barrier: []string{clear}, Target: CallTo(`JailValidator\(|SetWaitingValidator\(`), TargetMustExist: true, Why: "a forced unstake clears the session cache first"},
+		{Prop: P, ID: "sessioncache.cleared.mature-unstake", Fn: fnMatureVals, Barrier: []string{clear}, Target: CallTo(kN + `DeleteValidator\(`), TargetMustExist: true, Why: "deleting a matured unstaking node clears the session cache first"},
 		{Prop: P, ID: "sessioncache.cleared.legacy-force", Fn: fnLegacyForce, Barrier: []string{clear}, Target: CallTo(`DeleteValidator\(|` + kN + `SetValidator\(|deleteValidator`), TargetMustExist: true, Why: "a legacy forced unstake clears the session cache first"},
 	}
 	out := c.Rows(rows)
